@@ -80,20 +80,20 @@ func (e *vEnd) Read(p []byte) (int, error)  { return e.r.Read(p) }
 func (e *vEnd) Write(p []byte) (int, error) { return e.w.Write(p) }
 
 type vParty struct {
-	m        *Machine
-	cd       *ConnData
-	priv     *btcec.PrivateKey
-	err      error
-	done     bool
-	gotRemote *btcec.PublicKey
+	m           *Machine
+	cd          *ConnData
+	priv        *btcec.PrivateKey
+	err         error
+	done        bool
+	gotRemote   *btcec.PublicKey
 	remoteCalls int
-	gotAuth  []byte
-	authCalls int
+	gotAuth     []byte
+	authCalls   int
 }
 
 type vHS struct {
-	cli, srv   *vParty
-	c2s, s2c   *vHalf
+	cli, srv *vParty
+	c2s, s2c *vHalf
 }
 
 type vHSConfig struct {
@@ -163,7 +163,7 @@ func vAgree(hs *vHS, auth []byte) {
 	vAssert(c.version == s.version, "both completed with different negotiated versions")
 	vAssert(vIdealEq(c.sendCipher.secretKey[:], s.recvCipher.secretKey[:]) && vIdealEq(c.recvCipher.secretKey[:], s.sendCipher.secretKey[:]),
 		"both completed but traffic keys are not complementary")
-	vAssert(vIdealEq(c.sendCipher.salt[:], s.recvCipher.salt[:]), "both completed with different rotation salts")
+	vAssert(vIdealEq(c.sendCipher.salt[:], s.recvCipher.salt[:]) && vIdealEq(s.sendCipher.salt[:], c.recvCipher.salt[:]), "both completed with different rotation salts")
 	vAssert(c.remoteStatic != nil && s.remoteStatic != nil, "completed without a remote static key")
 	if c.remoteStatic != nil && s.remoteStatic != nil {
 		vAssert(vSamePubKey(c.remoteStatic, hs.srv.priv.PubKey()), "initiator holds a static key that is not the responder's")
